@@ -66,6 +66,7 @@ Proof.
   - destruct k as [|k2]; [injection H as <-; exact Hskip|].
     destruct (fbuf (f_chans s (f_gen s))) eqn:Hb; [discriminate|]. injection H as <-. apply Hsend; auto. discriminate.
   - destruct k as [|k2]; [injection H as <-; exact Hskip|].
+    destruct (fbuf (f_chans s (f_gen s))) eqn:Hb; [discriminate|]. injection H as <-. apply Hsend; auto. discriminate.  - destruct k as [|k2]; [injection H as <-; exact Hskip|].
     destruct (fbuf (f_chans s (f_gen s))) eqn:Hb; [discriminate|]. injection H as <-. apply Hsend; auto. discriminate.
 Qed.
 
